@@ -37,6 +37,7 @@ func (sp *tableParser) Parse(protomsg proto.Message, sheet *book.Sheet) error {
 		for col := header.DataRow - 1; col < sheet.Table.MaxCol; col++ {
 			curr := book.NewRowCells(col, prev, sheet.Name)
 			curr.Transposed = true
+			blank := true
 			for row := 0; row < sheet.Table.MaxRow; row++ {
 				if col == header.DataRow-1 {
 					nameCell, err := sheet.Table.Cell(row, nameCol)
@@ -59,6 +60,9 @@ func (sp *tableParser) Parse(protomsg proto.Message, sheet *book.Sheet) error {
 				if err != nil {
 					return xerrors.WrapKV(err)
 				}
+				if data != "" && sp.names[row] != "" {
+					blank = false
+				}
 				curr.NewCell(row, &sp.names[row], &sp.types[row], data, sp.sheetOpts.AdjacentKey)
 				name := sp.names[row]
 				if name == "" {
@@ -71,6 +75,12 @@ func (sp *tableParser) Parse(protomsg proto.Message, sheet *book.Sheet) error {
 				sp.lookupTable[name] = row
 			}
 			curr.SetColumnLookupTable(sp.lookupTable)
+			if blank {
+				// a data line whose named columns are all blank states nothing: the XLSX
+				// reader drops such trailing lines, a rectangular CSV export keeps them
+				curr.Free()
+				continue
+			}
 
 			_, err := sp.parseMessage(msg, curr, "")
 			if err != nil {
@@ -92,6 +102,7 @@ func (sp *tableParser) Parse(protomsg proto.Message, sheet *book.Sheet) error {
 		var prev *book.RowCells
 		for row := header.DataRow - 1; row < sheet.Table.MaxRow; row++ {
 			curr := book.NewRowCells(row, prev, sheet.Name)
+			blank := true
 			for col := 0; col < sheet.Table.MaxCol; col++ {
 				if row == header.DataRow-1 {
 					nameCell, err := sheet.Table.Cell(nameRow, col)
@@ -114,6 +125,9 @@ func (sp *tableParser) Parse(protomsg proto.Message, sheet *book.Sheet) error {
 				if err != nil {
 					return xerrors.WrapKV(err)
 				}
+				if data != "" && sp.names[col] != "" {
+					blank = false
+				}
 				curr.NewCell(col, &sp.names[col], &sp.types[col], data, sp.sheetOpts.AdjacentKey)
 				name := sp.names[col]
 				if name == "" {
@@ -127,6 +141,12 @@ func (sp *tableParser) Parse(protomsg proto.Message, sheet *book.Sheet) error {
 			}
 
 			curr.SetColumnLookupTable(sp.lookupTable)
+			if blank {
+				// a data line whose named columns are all blank states nothing: the XLSX
+				// reader drops such trailing lines, a rectangular CSV export keeps them
+				curr.Free()
+				continue
+			}
 
 			_, err := sp.parseMessage(msg, curr, "")
 			if err != nil {
